@@ -37,13 +37,27 @@ func (l *lruList[K, V]) moveAfter(current *node[K, V], nd *node[K, V]) {
 		return
 	}
 
-	nd.prev.next = nd.next
-	nd.next.prev = nd.prev
+	{
+		var l *lruList[K, V] = l
+		_ = l
+		var nd *node[K, V] = nd
+		_ = nd
+		nd.prev.next = nd.next
+		nd.next.prev = nd.prev
+	}
 
-	nd.prev = current
-	nd.next = current.next
-	nd.prev.next = nd
-	nd.next.prev = nd
+	{
+		var l *lruList[K, V] = l
+		_ = l
+		var at *node[K, V] = current
+		_ = at
+		var nd *node[K, V] = nd
+		_ = nd
+		nd.prev = at
+		nd.next = at.next
+		at.next = nd
+	}
+
 }
 
 // moveFront moves nd at the front of the list (after the root element).
@@ -71,6 +85,12 @@ func (l *lruList[K, V]) addAfter(current *node[K, V], key K, value V) *node[K, V
 	return &newNode
 }
 
+// addFront adds a new element to the front of the list (after the root node).
+func (l *lruList[K, V]) addFront(key K, value V) *node[K, V] {
+	x := l.addAfter(&l.root, key, value)
+	return x
+}
+
 // last returns the last node from the list.
 func (l *lruList[K, V]) last() *node[K, V] {
 	return l.root.prev
@@ -93,6 +113,11 @@ func (l *lruList[K, V]) remove(node *node[K, V]) bool {
 		return true
 	}
 	return false
+}
+
+// removeLast removes the last node from the list.
+func (l *lruList[K, V]) removeLast() bool {
+	return l.remove(l.last())
 }
 
 // LRUCache implements a fixed size LRU cache using a map and a double linked list.
@@ -126,8 +151,8 @@ func (c *LRUCache[K, V]) Add(key K, value V) (oldestKey K, oldestValue V, remove
 		return
 	}
 
-	// Since this is a new element, put this to the front (after the root node)
-	item := c.evictList.addAfter(&c.evictList.root, key, value)
+	// Since this is a new element, put this to the front
+	item := c.evictList.addFront(key, value)
 	c.items[key] = item
 
 	// Remove the oldest element if the cache is full
@@ -174,7 +199,7 @@ func (c *LRUCache[K, V]) GetYoungest() (key K, value V, available bool) {
 func (c *LRUCache[K, V]) RemoveOldest() (key K, value V, removed bool) {
 	if item := c.evictList.last(); item != &c.evictList.root {
 		delete(c.items, item.key)
-		return item.key, item.value, c.evictList.remove(c.evictList.last())
+		return item.key, item.value, c.evictList.removeLast()
 	}
 	return
 }
@@ -203,15 +228,4 @@ func (c *LRUCache[K, V]) RemoveYoungest() (key K, value V, removed bool) {
 func (c *LRUCache[K, V]) Flush() {
 	c.items = make(map[K]*node[K, V])
 	c.evictList = newLRUList[K, V]()
-}
-
-// addFront adds a new element to the front of the list (after the root node).
-func (l *lruList[K, V]) addFront(key K, value V) *node[K, V] {
-	x := l.addAfter(&l.root, key, value)
-	return x
-}
-
-// removeLast removes the last node from the list.
-func (l *lruList[K, V]) removeLast() bool {
-	return l.remove(l.last())
 }
